@@ -386,14 +386,14 @@ func (g *pgen) inst() {
 		}
 		switch r.Intn(3) {
 		case 0:
-			g.small(r.Intn(4))
+			g.small(r.Intn(3))
 			g.op(0x80, 2, 1) // LEFT
 		case 1:
-			g.small(r.Intn(4))
+			g.small(r.Intn(3))
 			g.op(0x81, 2, 1) // RIGHT
 		default:
-			g.small(r.Intn(3))
-			g.small(r.Intn(3))
+			g.small(r.Intn(2))
+			g.small(r.Intn(2))
 			g.op(0x7f, 3, 1) // SUBSTR
 		}
 	case x < 52: // CAT family
@@ -719,14 +719,14 @@ func coqObs(o *vmlib.Obs, l *layout) string {
 // ---------------------------------------------------------------- main loop
 
 func run(c *Ctx) error {
-	n := c.N(2400, 30000)
+	n := c.N(2000, 20000)
 	cases := corpus()
 	for i := 0; i < n; i++ {
 		cases = append(cases, genCase(c.Rng))
 	}
 	evalEvery := 1
 	if c.Thorough() {
-		evalEvery = 3 // every third case also goes through the Coq model
+		evalEvery = 4 // every fourth case also goes through the Coq model
 	}
 	for idx, t := range cases {
 		cs := t.cs
